@@ -11,6 +11,8 @@ def directive_plugin(kind):
     plugs = [Admonition(), TableOfContents(), Include(), Image(), Figure()]
     if kind == "fenced-colon":
         return FencedDirective(plugs, ":")          # custom fence markers (":::{note}")
+    if kind == "fenced-pct":
+        return FencedDirective(plugs, "%")
     return FencedDirective(plugs) if kind == "fenced" else RSTDirective(plugs)
 
 
